@@ -1450,3 +1450,17 @@ M('C16', 'offset sign follows the total size', 'odl/discr/discr_ops.py',
   "    diff_l = np.abs(ran.grid.min() - dom.grid.min())",
   "    small, large = (dom, ran) if dom.size <= ran.size else (ran, dom)\n    diff_l = small.grid.min() - large.grid.min()",
   'C16-R4b')
+M('C18', 'pre-processing factors cached by axis length', 'odl/trafos/util/ft_utils.py',
+  """    onedim_arrs = []
+    for axis, shift in zip(axes, shift_list):
+        length = shape[axis]
+        onedim_arrs.append(_onedim_arr(length, shift))""",
+  """    factors = {}
+    onedim_arrs = []
+    for axis, shift in zip(axes, shift_list):
+        length = shape[axis]
+        if length not in factors:
+            factors[length] = _onedim_arr(length, shift)
+        onedim_arrs.append(factors[length])""", 'C18-R2b')
+M('C18', 'shifted pre-processing factor starts with -1', 'odl/trafos/util/ft_utils.py',
+  "            factor[1::2] = -1", "            factor[::2] = -1", 'C18-R2b')
